@@ -1,4 +1,5 @@
 // unit: factory -- halo-factory contract (C14, C16, C17)
+#![feature(pattern)]
 use vstd::prelude::*;
 use vstd::std_specs::ops::*;
 use vstd::std_specs::cmp::*;
